@@ -5,6 +5,8 @@ LEVEL = 'other'
 ASSUMPTIONS = [
     'PARTIAL CLAIM: totality and time bound of the PLY scanner/driver on arbitrary text are NOT claimed (the scanner cannot be executed symbolically, DESIGN.md section 6); claimed are the build phase and the atomicity of input()',
     'build phase: value tokens from a pool of 21 tokens covering every lexical class (string, guid, number, fraction, negative, boolean words) in columns of 7 type names; statement objects are constructed directly',
+    'token level (tok_*): PLY\'s scanner is replaced by a stub handing out solver-chosen tokens (kind from the loader\'s alphabet, text from a small pool of the kind\'s language, line 10+i, offset 100+i); the driver, tables, actions, p_error and input() are the real ones; bounds: <= 3 (4) tokens over all 27 kinds, <= 3..4 (4..5) tokens behind 7 pinned prefixes',
+    'scanner_backtracking: strings of 1..6 characters per repetition; \\d / \\w / \\s modelled as their ASCII sets; a candidate counts only if the real loader does not scan the pumped text within 15 s',
     'input(): texts from a pool of 4 accepted and 6 rejected texts (lexical error, syntax error after valid statements, illegal cardinality raised inside a production, truncated input) parsed by the real PLY parser outside the tracer; plus a nondeterministic parser stub (returns a fresh list or raises ParsingException)',
 ]
 
